@@ -1,6 +1,8 @@
 /-
   C10 — translation tie for planar/distance.go, planar/distance_from.go, planar/area.go
-  (`multiPointCentroid`, `ringCentroidArea`) and internal/length/length.go (`lineStringLength`).
+  (`multiPointCentroid`, `ringCentroidArea`, `lineStringCentroidDist`, `multiLineStringCentroid`,
+  `polygonCentroidArea`, `multiPolygonCentroidArea`) and internal/length/length.go (`lineStringLength`,
+  `polygonLength`, the LineString / MultiLineString / Ring / Polygon / MultiPolygon cases of `Length`).
   `Generated/PlanarGo.lean` and `Generated/LengthGo.lean` are REGENERATED from /repo on every run
   by harness/cmd/factgen/translate_float.go; the theorems below prove each regenerated definition
   equal to the hand-written model definition of `Orb.Planar`, for every number type.
@@ -91,12 +93,249 @@ theorem lineStringLength_tie (sqrt : α → α) (ls : List (Pt α)) :
     Generated.LengthGo.lineStringLength ls (Planar.distance sqrt) = Planar.lineStringLength sqrt ls 0 :=
   lineStringLength_loop sqrt ls 0
 
+/-- `polygonLength(p, planar.Distance)`: `for _, r := range p { sum += lineStringLength(r, df) }` -/
+theorem polygonLength_tie (sqrt : α → α) (p : List (List (Pt α))) :
+    Generated.LengthGo.polygonLength p (Planar.distance sqrt) = Planar.polygonLength sqrt p := by
+  have hf : (fun (sum : α) (r : List (Pt α)) => sum + Generated.LengthGo.lineStringLength r (Planar.distance sqrt))
+      = (fun sum r => sum + Planar.lineStringLength sqrt r 0) := by
+    funext sum r; rw [lineStringLength_tie]
+  show List.foldl _ 0 p = _
+  rw [hf]; rfl
+
+/-- the cases of the type switch of `length.Length(g, planar.Distance)` with a loop or a call of their own
+    (`case orb.MultiLineString: for _, ls := range g { sum += lineStringLength(ls, df) }` …) -/
+theorem length_cases_tie (sqrt : α → α) :
+    (∀ g : List (Pt α),
+      Generated.LengthGo.lengthLineString g (Planar.distance sqrt) = Planar.length sqrt (.lineString g)) ∧
+    (∀ g : List (List (Pt α)),
+      Generated.LengthGo.lengthMultiLineString g (Planar.distance sqrt) = Planar.length sqrt (.multiLineString g)) ∧
+    (∀ g : List (Pt α),
+      Generated.LengthGo.lengthRing g (Planar.distance sqrt) = Planar.length sqrt (.ring g)) ∧
+    (∀ g : List (List (Pt α)),
+      Generated.LengthGo.lengthPolygon g (Planar.distance sqrt) = Planar.length sqrt (.polygon g)) ∧
+    (∀ g : List (List (List (Pt α))),
+      Generated.LengthGo.lengthMultiPolygon g (Planar.distance sqrt) = Planar.length sqrt (.multiPolygon g)) := by
+  refine ⟨fun g => ?_, fun g => ?_, fun g => ?_, fun g => ?_, fun g => ?_⟩
+  · rw [Planar.length]; exact lineStringLength_tie sqrt g
+  · rw [Planar.length]
+    have hf : (fun (sum : α) (ls : List (Pt α)) => sum + Generated.LengthGo.lineStringLength ls (Planar.distance sqrt))
+        = (fun sum ls => sum + Planar.lineStringLength sqrt ls 0) := by
+      funext sum ls; rw [lineStringLength_tie]
+    show List.foldl _ 0 g = _
+    rw [hf]
+  · rw [Planar.length]; exact lineStringLength_tie sqrt g
+  · rw [Planar.length]; exact polygonLength_tie sqrt g
+  · rw [Planar.length]
+    have hf : (fun (sum : α) (p : List (List (Pt α))) => sum + Generated.LengthGo.polygonLength p (Planar.distance sqrt))
+        = (fun sum p => sum + Planar.polygonLength sqrt p) := by
+      funext sum p; rw [polygonLength_tie]
+    show List.foldl _ 0 g = _
+    rw [hf]
+
+/-! ### area.go: the loops over lines, rings and polygons
+
+`math.Inf(1)` is the explicit parameter `inf` of the translation; the models write it `none`. -/
+
+/-- the loop `for i := 0; i < len(ls)-1; i++` of `lineStringCentroidDist` -/
+theorem lineCentroidLoop_eq (sqrt : α → α) (o : Pt α) (l : List (Pt α)) (px py dist : α) :
+    Generated.BoundGo.foldPairs (fun ((dist, point) : α × Pt α) (p q : Pt α) =>
+        let p1 : Pt α := (⟨p.x - o.x, p.y - o.y⟩ : Pt α)
+        let p2 : Pt α := (⟨q.x - o.x, q.y - o.y⟩ : Pt α)
+        let d : α := Generated.PlanarGo.distance sqrt p1 p2
+        let point : Pt α := ⟨point.x + (((p1.x + p2.x) / 2) * d), point.y⟩
+        let point : Pt α := ⟨point.x, point.y + (((p1.y + p2.y) / 2) * d)⟩
+        let dist : α := dist + d
+        (dist, point)) l (dist, ⟨px, py⟩)
+      = ((Planar.lineCentroidLoop sqrt o l (px, py, dist)).2.2,
+          ⟨(Planar.lineCentroidLoop sqrt o l (px, py, dist)).1, (Planar.lineCentroidLoop sqrt o l (px, py, dist)).2.1⟩) := by
+  induction l generalizing px py dist with
+  | nil => rfl
+  | cons p t ih =>
+    cases t with
+    | nil => rfl
+    | cons q t' =>
+      simp only [Planar.lineCentroidLoop, Generated.BoundGo.foldPairs]
+      exact ih _ _ _
+
+/-- `lineStringCentroidDist` of an empty line: `(Point{}, +Inf)` (the model's `none`) -/
+theorem lineStringCentroidDist_nil (sqrt : α → α) (inf : α) :
+    Generated.PlanarGo.lineStringCentroidDist sqrt inf [] = (⟨0, 0⟩, inf) := rfl
+
+/-- `lineStringCentroidDist` of a line with at least one point -/
+theorem lineStringCentroidDist_tie (sqrt : α → α) (inf : α) (o : Pt α) (t : List (Pt α)) :
+    Planar.lineStringCentroidDist sqrt (o :: t) = some (Generated.PlanarGo.lineStringCentroidDist sqrt inf (o :: t)) := by
+  simp only [Generated.PlanarGo.lineStringCentroidDist, Planar.lineStringCentroidDist, List.getD_cons_zero,
+    List.length_cons]
+  rw [lineCentroidLoop_eq]
+  simp only []
+  split <;> rfl
+
+/-- the fall-back `c, _ := lineStringCentroidDist(orb.LineString(p[0]))` -/
+theorem lineFallback_tie (sqrt : α → α) (inf : α) (r : List (Pt α)) :
+    (Generated.PlanarGo.lineStringCentroidDist sqrt inf r).1 = Planar.lineFallback sqrt r := by
+  cases r with
+  | nil => rfl
+  | cons o t => rw [Planar.lineFallback, lineStringCentroidDist_tie sqrt inf]
+
+/-- the hole loop `for i := 1; i < len(p); i++` of `polygonCentroidArea`: the Go code keeps the state in
+    `holeArea` and the point `weightedHoleCentroid`, the model in a triple -/
+theorem holesFold_eq (rca : List (Pt α) → Pt α × α) (holes : List (List (Pt α))) (ha wx wy : α) :
+    List.foldl (fun ((holeArea, weightedHoleCentroid) : α × Pt α) (x : List (Pt α)) =>
+        let (hc, ha) := rca x
+        let ha : α := Generated.BoundGo.fabs ha
+        let holeArea : α := holeArea + ha
+        let weightedHoleCentroid : Pt α := ⟨weightedHoleCentroid.x + (hc.x * ha), weightedHoleCentroid.y⟩
+        let weightedHoleCentroid : Pt α := ⟨weightedHoleCentroid.x, weightedHoleCentroid.y + (hc.y * ha)⟩
+        (holeArea, weightedHoleCentroid)) (ha, ⟨wx, wy⟩) holes
+      = ((holes.foldl (fun (s : α × α × α) hr =>
+            let hca := rca hr
+            let ha := Planar.fabs hca.2
+            (s.1 + ha, s.2.1 + hca.1.x * ha, s.2.2 + hca.1.y * ha)) (ha, wx, wy)).1,
+         ⟨(holes.foldl (fun (s : α × α × α) hr =>
+            let hca := rca hr
+            let ha := Planar.fabs hca.2
+            (s.1 + ha, s.2.1 + hca.1.x * ha, s.2.2 + hca.1.y * ha)) (ha, wx, wy)).2.1,
+          (holes.foldl (fun (s : α × α × α) hr =>
+            let hca := rca hr
+            let ha := Planar.fabs hca.2
+            (s.1 + ha, s.2.1 + hca.1.x * ha, s.2.2 + hca.1.y * ha)) (ha, wx, wy)).2.2⟩) := by
+  induction holes generalizing ha wx wy with
+  | nil => rfl
+  | cons h t ih =>
+    simp only [List.foldl_cons]
+    exact ih _ _ _
+
+theorem ringCentroidArea_fn : @Generated.PlanarGo.ringCentroidArea α _ _ _ _ _ _ _ _ = Planar.ringCentroidArea := by
+  funext r; exact ringCentroidArea_tie r
+
+/-- `polygonCentroidArea`, whatever `inf` is (the fall-back only looks at the point) -/
+theorem polygonCentroidArea_tie (sqrt : α → α) (inf : α) (p : List (List (Pt α))) :
+    Generated.PlanarGo.polygonCentroidArea sqrt inf p = Planar.polygonCentroidArea sqrt p := by
+  cases p with
+  | nil => rfl
+  | cons outer holes =>
+    unfold Generated.PlanarGo.polygonCentroidArea Planar.polygonCentroidArea
+    rw [ringCentroidArea_fn]
+    simp only [List.length_cons, List.getD_cons_zero, List.drop_one, List.tail_cons, Nat.succ_ne_zero, ↓reduceIte]
+    rw [← lineFallback_tie sqrt inf]
+    generalize Generated.PlanarGo.lineStringCentroidDist sqrt inf outer = cd
+    generalize Planar.ringCentroidArea outer = ca
+    obtain ⟨c, d⟩ := cd
+    obtain ⟨centroid, area⟩ := ca
+    cases holes with
+    | nil => rfl
+    | cons h t =>
+      have hl : ¬ ((h :: t).length + 1 = 1) := by simp
+      simp only [hl, ↓reduceIte]
+      rw [holesFold_eq]
+      rfl
+
+/-- the loop `for _, p := range mp` of `multiPolygonCentroidArea`: the Go code keeps the state in `area`
+    and the point `point`, the model in a triple -/
+theorem weightedFold_eq (pca : List (List (Pt α)) → Pt α × α) (mp : List (List (List (Pt α)))) (px py area : α) :
+    List.foldl (fun ((area, point) : α × Pt α) (p : List (List (Pt α))) =>
+        let (c, a) := pca p
+        let point : Pt α := ⟨point.x + (c.x * a), point.y⟩
+        let point : Pt α := ⟨point.x, point.y + (c.y * a)⟩
+        let area : α := area + a
+        (area, point)) (area, ⟨px, py⟩) mp
+      = ((mp.foldl (fun (s : α × α × α) p =>
+            let ca := pca p
+            (s.1 + ca.1.x * ca.2, s.2.1 + ca.1.y * ca.2, s.2.2 + ca.2)) (px, py, area)).2.2,
+         ⟨(mp.foldl (fun (s : α × α × α) p =>
+            let ca := pca p
+            (s.1 + ca.1.x * ca.2, s.2.1 + ca.1.y * ca.2, s.2.2 + ca.2)) (px, py, area)).1,
+          (mp.foldl (fun (s : α × α × α) p =>
+            let ca := pca p
+            (s.1 + ca.1.x * ca.2, s.2.1 + ca.1.y * ca.2, s.2.2 + ca.2)) (px, py, area)).2.1⟩) := by
+  induction mp generalizing px py area with
+  | nil => rfl
+  | cons h t ih =>
+    simp only [List.foldl_cons]
+    exact ih _ _ _
+
+theorem polygonCentroidArea_fn (sqrt : α → α) (inf : α) :
+    Generated.PlanarGo.polygonCentroidArea sqrt inf = Planar.polygonCentroidArea sqrt := by
+  funext p; exact polygonCentroidArea_tie sqrt inf p
+
+/-- `multiPolygonCentroidArea` -/
+theorem multiPolygonCentroidArea_tie (sqrt : α → α) (inf : α) (mp : List (List (List (Pt α)))) :
+    Generated.PlanarGo.multiPolygonCentroidArea sqrt inf mp = Planar.multiPolygonCentroidArea sqrt mp := by
+  unfold Generated.PlanarGo.multiPolygonCentroidArea Planar.multiPolygonCentroidArea Planar.finishWeighted
+  rw [polygonCentroidArea_fn]
+  simp only []
+  rw [weightedFold_eq]
+
+/-- the loop `for _, ls := range mls` of `multiLineStringCentroid`.  The Go code skips a line when
+    `d == math.Inf(1)`, which is what `lineStringCentroidDist` answers for an EMPTY line; the model skips
+    exactly the empty lines (`none`).  The two agree when `inf == inf` holds and no non-empty line has the
+    length `inf` (an overflowing sum is outside the model, see the head of `Orb.Planar`). -/
+theorem mlsFold_eq (sqrt : α → α) (inf : α) (hinf : (inf == inf) = true) (l : List (List (Pt α)))
+    (hl : ∀ ls ∈ l, ls ≠ [] → ((Generated.PlanarGo.lineStringCentroidDist sqrt inf ls).2 == inf) = false)
+    (dist fx fy px py : α) (vc : Nat) :
+    List.foldl (fun ((dist, flat, point, validCount) : α × Pt α × Pt α × Nat) (ls : List (Pt α)) =>
+        let (c, d) := Generated.PlanarGo.lineStringCentroidDist sqrt inf ls
+        if d == inf then
+          (dist, flat, point, validCount)
+        else
+          let dist : α := dist + d
+          let validCount : Nat := validCount + 1
+          let flat : Pt α := ⟨flat.x + c.x, flat.y⟩
+          let flat : Pt α := ⟨flat.x, flat.y + c.y⟩
+          let point : Pt α := ⟨point.x + (c.x * d), point.y⟩
+          let point : Pt α := ⟨point.x, point.y + (c.y * d)⟩
+          (dist, flat, point, validCount)) (dist, ⟨fx, fy⟩, ⟨px, py⟩, vc) l
+      = ((l.foldl (Planar.mlsStep sqrt) ⟨px, py, fx, fy, dist, vc⟩).dist,
+         ⟨(l.foldl (Planar.mlsStep sqrt) ⟨px, py, fx, fy, dist, vc⟩).fx, (l.foldl (Planar.mlsStep sqrt) ⟨px, py, fx, fy, dist, vc⟩).fy⟩,
+         ⟨(l.foldl (Planar.mlsStep sqrt) ⟨px, py, fx, fy, dist, vc⟩).px, (l.foldl (Planar.mlsStep sqrt) ⟨px, py, fx, fy, dist, vc⟩).py⟩,
+         (l.foldl (Planar.mlsStep sqrt) ⟨px, py, fx, fy, dist, vc⟩).valid) := by
+  induction l generalizing dist fx fy px py vc with
+  | nil => rfl
+  | cons ls t ih =>
+    have ht : ∀ ls ∈ t, ls ≠ [] → ((Generated.PlanarGo.lineStringCentroidDist sqrt inf ls).2 == inf) = false :=
+      fun x hx => hl x (List.mem_cons_of_mem _ hx)
+    simp only [List.foldl_cons]
+    cases ls with
+    | nil =>
+      simp only [lineStringCentroidDist_nil, hinf, ↓reduceIte, Planar.mlsStep, Planar.lineStringCentroidDist]
+      exact ih ht _ _ _ _ _ _
+    | cons o r =>
+      have h1 := hl (o :: r) (List.mem_cons_self) (by simp)
+      simp only [Planar.mlsStep, lineStringCentroidDist_tie sqrt inf]
+      generalize Generated.PlanarGo.lineStringCentroidDist sqrt inf (o :: r) = cd at h1 ⊢
+      obtain ⟨c, d⟩ := cd
+      simp only [] at h1
+      simp only [h1, Bool.false_eq_true, ↓reduceIte]
+      exact ih ht _ _ _ _ _ _
+
+/-- `multiLineStringCentroid`, for `inf` an element with `inf == inf` that no line length and not the
+    total length equals (`math.Inf(1)` when nothing overflows) -/
+theorem multiLineStringCentroid_tie (sqrt : α → α) (inf : α) (hinf : (inf == inf) = true) (mls : List (List (Pt α)))
+    (hl : ∀ ls ∈ mls, ls ≠ [] → ((Generated.PlanarGo.lineStringCentroidDist sqrt inf ls).2 == inf) = false)
+    (ht : ((mls.foldl (Planar.mlsStep sqrt) ⟨0, 0, 0, 0, 0, 0⟩).dist == inf) = false) :
+    Generated.PlanarGo.multiLineStringCentroid sqrt inf mls = Planar.multiLineStringCentroid sqrt mls := by
+  cases mls with
+  | nil => rfl
+  | cons l t =>
+    unfold Generated.PlanarGo.multiLineStringCentroid Planar.multiLineStringCentroid
+    simp only [List.length_cons, Nat.succ_ne_zero, ↓reduceIte]
+    rw [mlsFold_eq sqrt inf hinf (l :: t) hl]
+    simp only [ht, Bool.false_or]
+    generalize List.foldl (Planar.mlsStep sqrt) ⟨0, 0, 0, 0, 0, 0⟩ (l :: t) = s
+    by_cases hv : s.valid = 0
+    · simp [hv]
+    · simp [hv]
+
 theorem all_translated_PlanarGo : Generated.PlanarGo.translated =
     ["distance", "distanceSquared", "distanceFromSegmentSquared", "distanceFromSegment",
-     "segmentDistanceFromSquared", "multiPointCentroid", "ringCentroidArea", "rayIntersect"] := by
+     "segmentDistanceFromSquared", "multiPointCentroid", "ringCentroidArea", "rayIntersect", "ringContains",
+     "polygonContains", "multiPolygonContains", "lineStringCentroidDist", "multiLineStringCentroid",
+     "polygonCentroidArea", "multiPolygonCentroidArea"] := by
   decide
 
-theorem all_translated_LengthGo : Generated.LengthGo.translated = ["lineStringLength"] := by
+theorem all_translated_LengthGo : Generated.LengthGo.translated =
+    ["lineStringLength", "polygonLength", "lengthLineString", "lengthMultiLineString", "lengthRing", "lengthPolygon",
+     "lengthMultiPolygon"] := by
   decide
 
 end Orb.C10Tie
